@@ -83,6 +83,7 @@ static size_t vx_popcount16(uint16_t x)
   return (size_t) ((x & 0xffu) + (x >> 8));
 }
 static size_t mask_count(struct mask m) { return vx_popcount16(m.bits); }
+static size_t mask_mask_size(struct mask m) { return 16; }   /* capacity of the 16-bit mask of the bounded machines */
 static struct topo *g_topo;
 static size_t vx_hardware_concurrency(void) { return g_topo->npus; }
 
